@@ -57,7 +57,7 @@ def main():
             if rc != 0:
                 rec["status"] = "uncompilable"
             else:
-                rc, out = sh("go test -vet=off -count=1 -timeout 4m ./kmipserver ./kmipclient ./kmiptest ./ttlv", WT, 400)
+                rc, out = sh("go test -vet=off -count=1 -timeout 75s ./kmipserver ./kmipclient ./kmiptest ./ttlv", WT, 240)
                 if rc != 0:
                     rec["status"] = "killed-by-suite"
                 else:
